@@ -1,10 +1,16 @@
 /-
-Strict monotonicity of the sRGB linearisation used by `Color::luminance`, on the 8-bit lattice.
+Strict monotonicity of the sRGB linearisation used by `Color::luminance`.
 
-Over all reals the piecewise function of `luminance` (cut at 0.03928, as in WCAG 2.0 and in the
-code) is *not* monotone: just above the cut the power branch is about 8e-7 below the linear
-branch.  No 8-bit level falls into that gap: 10/255 < 0.03928 < 11/255, and the step from level 10
-to level 11 is an increase, which is the rational inequality `(10/255/12.92)^5 < ((11/255+0.055)/1.055)^12`.
+The piecewise function is cut at 0.04045, where the power branch starts 2.3e-9 *above* the end of
+the linear branch (`cut_step`, a rational inequality `(0.04045/12.92)^5 < ((0.04045+0.055)/1.055)^12`),
+so it is strictly increasing on all of `ℝ`.
+
+History: the pinned code used the cut 0.03928 of the original WCAG 2.0 text.  There the power
+branch starts 7.6e-7 *below* the linear branch, and the first attempt at this proof failed exactly
+at the step across the cut; the failing step, replayed on the implementation
+(`hsl(0,0%,3.9279%).lighten(2e-6)` has a lower luminance), is the defect repaired by the `fix:`
+commit e8f6984.  (With 0.03928 the function is still increasing on the 256 8-bit levels, because
+10/255 < 0.03928 < 11/255; that weaker statement was proved first.)
 -/
 import Pastel.RealInst
 import Pastel.Model.Color
@@ -15,21 +21,9 @@ open Pastel
 
 /-- `lumF` at `ℝ` in Mathlib terms. -/
 theorem lumF_real (s : ℝ) :
-    lumF s = if s ≤ 0.03928 then s / 12.92 else ((s + 0.055) / 1.055) ^ (2.4 : ℝ) := by
+    lumF s = if s ≤ 0.04045 then s / 12.92 else ((s + 0.055) / 1.055) ^ (2.4 : ℝ) := by
   unfold lumF
   sc_norm
-
-theorem level_le_cut (c : ℕ) (h : c ≤ 10) : ((c : ℝ) / 255) ≤ 0.03928 := by
-  have : (c : ℝ) ≤ 10 := by exact_mod_cast h
-  rw [div_le_iff₀ (by norm_num)]
-  norm_num
-  linarith
-
-theorem cut_lt_level (c : ℕ) (h : 11 ≤ c) : ¬ ((c : ℝ) / 255) ≤ 0.03928 := by
-  have : (11 : ℝ) ≤ c := by exact_mod_cast h
-  rw [not_le, lt_div_iff₀ (by norm_num)]
-  norm_num
-  linarith
 
 /-- `x ^ 2.4` compared through integer powers: `y ^ 5 < x ^ 12 → y < x ^ 2.4`. -/
 theorem lt_rpow_of_pow (x y : ℝ) (hx : 0 < x) (hy : 0 ≤ y) (h : y ^ 5 < x ^ 12) : y < x ^ (2.4 : ℝ) := by
@@ -43,52 +37,45 @@ theorem lt_rpow_of_pow (x y : ℝ) (hx : 0 < x) (hy : 0 ≤ y) (h : y ^ 5 < x ^ 
   rw [e] at this
   linarith
 
-/-- The step across the cut: level 10 (linear branch) to level 11 (power branch). -/
-theorem step_10_11 : ((10 : ℝ) / 255) / 12.92 < (((11 : ℝ) / 255 + 0.055) / 1.055) ^ (2.4 : ℝ) := by
+/-- At the cut the power branch starts above the end of the linear branch. -/
+theorem cut_step : (0.04045 : ℝ) / 12.92 < (((0.04045 : ℝ) + 0.055) / 1.055) ^ (2.4 : ℝ) := by
   apply lt_rpow_of_pow
   · norm_num
   · norm_num
   · norm_num
 
-theorem lumF_level_low (c : ℕ) (h : c ≤ 10) : lumF ((c : ℝ) / 255) = ((c : ℝ) / 255) / 12.92 := by
-  rw [lumF_real, if_pos (level_le_cut c h)]
+theorem pow_branch_mono (a b : ℝ) (ha : 0.04045 ≤ a) (hab : a < b) :
+    ((a + 0.055) / 1.055) ^ (2.4 : ℝ) < ((b + 0.055) / 1.055) ^ (2.4 : ℝ) := by
+  apply Real.rpow_lt_rpow
+  · apply div_nonneg _ (by norm_num); linarith
+  · apply div_lt_div_of_pos_right _ (by norm_num); linarith
+  · norm_num
 
-theorem lumF_level_high (c : ℕ) (h : 11 ≤ c) :
-    lumF ((c : ℝ) / 255) = (((c : ℝ) / 255 + 0.055) / 1.055) ^ (2.4 : ℝ) := by
-  rw [lumF_real, if_neg (cut_lt_level c h)]
+/-- **The linearisation is strictly increasing on all of `ℝ`.** -/
+theorem lumF_strictMono : StrictMono (lumF : ℝ → ℝ) := by
+  intro s t hst
+  rw [lumF_real, lumF_real]
+  by_cases ht : t ≤ 0.04045
+  · have hs : s ≤ 0.04045 := by linarith
+    rw [if_pos hs, if_pos ht]
+    exact div_lt_div_of_pos_right hst (by norm_num)
+  · rw [if_neg ht]
+    have ht' := not_le.mp ht
+    have hcut : (((0.04045 : ℝ) + 0.055) / 1.055) ^ (2.4 : ℝ) < ((t + 0.055) / 1.055) ^ (2.4 : ℝ) :=
+      pow_branch_mono _ _ le_rfl ht'
+    by_cases hs : s ≤ 0.04045
+    · rw [if_pos hs]
+      have : s / 12.92 ≤ (0.04045 : ℝ) / 12.92 := div_le_div_of_nonneg_right hs (by norm_num)
+      linarith [cut_step]
+    · rw [if_neg hs]
+      exact pow_branch_mono _ _ (not_le.mp hs).le hst
 
-/-- **Strictly increasing on the 8-bit levels.** -/
+theorem lumF_mono {s t : ℝ} (h : s ≤ t) : lumF s ≤ lumF t := lumF_strictMono.monotone h
+
+/-- In particular on the 8-bit levels. -/
 theorem lumF_lattice_strictMono (c d : ℕ) (hcd : c < d) : lumF ((c : ℝ) / 255) < lumF ((d : ℝ) / 255) := by
-  have hcd' : (c : ℝ) < d := by exact_mod_cast hcd
-  by_cases hd : d ≤ 10
-  · rw [lumF_level_low c (by omega), lumF_level_low d hd]
-    apply div_lt_div_of_pos_right _ (by norm_num)
-    exact div_lt_div_of_pos_right hcd' (by norm_num)
-  · have hd : 11 ≤ d := by omega
-    rw [lumF_level_high d hd]
-    have hmono : ∀ a b : ℝ, 0 ≤ a → a < b →
-        ((a / 255 + 0.055) / 1.055) ^ (2.4 : ℝ) < ((b / 255 + 0.055) / 1.055) ^ (2.4 : ℝ) := by
-      intro a b ha hab
-      apply Real.rpow_lt_rpow
-      · positivity
-      · apply div_lt_div_of_pos_right _ (by norm_num)
-        have := div_lt_div_of_pos_right hab (show (0 : ℝ) < 255 by norm_num)
-        linarith
-      · norm_num
-    by_cases hc : c ≤ 10
-    · rw [lumF_level_low c hc]
-      have h1 : ((c : ℝ) / 255) / 12.92 ≤ ((10 : ℝ) / 255) / 12.92 := by
-        have : (c : ℝ) ≤ 10 := by exact_mod_cast hc
-        apply div_le_div_of_nonneg_right _ (by norm_num)
-        exact div_le_div_of_nonneg_right this (by norm_num)
-      have h2 : (((11 : ℝ) / 255 + 0.055) / 1.055) ^ (2.4 : ℝ) ≤ (((d : ℝ) / 255 + 0.055) / 1.055) ^ (2.4 : ℝ) := by
-        rcases Nat.eq_or_lt_of_le hd with h | h
-        · rw [← h]; norm_num
-        · have : (11 : ℝ) < d := by exact_mod_cast h
-          exact (hmono 11 d (by norm_num) this).le
-      linarith [step_10_11]
-    · have hc : 11 ≤ c := by omega
-      rw [lumF_level_high c hc]
-      exact hmono c d (by positivity) hcd'
+  apply lumF_strictMono
+  have : (c : ℝ) < d := by exact_mod_cast hcd
+  exact div_lt_div_of_pos_right this (by norm_num)
 
 end Pastel.LumMono
